@@ -404,12 +404,16 @@ func (be *BinaryExpression) WriteTo(cw *CodeWriter) {
 	myPrecedence := be.Precedence()
 
 	// Left side needs parens if its precedence is lower than ours
+	// (parentheses indent their content exactly like a GroupedExpression does, so
+	// that the re-parsed output, where they are grouping nodes, prints the same)
 	leftNeedsParens := be.Left.Precedence() < myPrecedence
 	if leftNeedsParens {
 		cw.WriteRune('(')
+		cw.IncreaseIndent()
 	}
 	be.Left.WriteTo(cw)
 	if leftNeedsParens {
+		cw.DecreaseIndent()
 		cw.WriteRune(')')
 	}
 
@@ -424,9 +428,11 @@ func (be *BinaryExpression) WriteTo(cw *CodeWriter) {
 	rightNeedsParens := be.Right.Precedence() <= myPrecedence
 	if rightNeedsParens {
 		cw.WriteRune('(')
+		cw.IncreaseIndent()
 	}
 	be.Right.WriteTo(cw)
 	if rightNeedsParens {
+		cw.DecreaseIndent()
 		cw.WriteRune(')')
 	}
 }
@@ -449,7 +455,9 @@ func (ue *UnaryExpression) WriteTo(cw *CodeWriter) {
 	// Right side needs parens if its precedence is lower than unary
 	if ue.Right.Precedence() < PrecedenceUnary {
 		cw.WriteRune('(')
+		cw.IncreaseIndent()
 		ue.Right.WriteTo(cw)
+		cw.DecreaseIndent()
 		cw.WriteRune(')')
 	} else {
 		ue.Right.WriteTo(cw)
@@ -471,7 +479,9 @@ func (pe *PostfixExpression) WriteTo(cw *CodeWriter) {
 	// Left side needs parens if its precedence is lower than postfix
 	if pe.Left.Precedence() < PrecedencePostfix {
 		cw.WriteRune('(')
+		cw.IncreaseIndent()
 		pe.Left.WriteTo(cw)
+		cw.DecreaseIndent()
 		cw.WriteRune(')')
 	} else {
 		pe.Left.WriteTo(cw)
